@@ -316,16 +316,24 @@ def rule_worklists_terminate(ctx, rid):
             pushes = [c for c in ast.walk(w) if isinstance(c, ast.Call) and isinstance(c.func, ast.Attribute) and c.func.attr in ("append", "extend", "appendleft")
                       and is_name(c.func.value, wl)]
             popped = first.targets[0].id if isinstance(first, ast.Assign) and isinstance(first.targets[0], ast.Name) else None
-            # visited idiom: `if x in visited: continue` before any push, and visited.add(x) in the body
-            visited_guard = [s for s in w.body if isinstance(s, ast.If) and isinstance(s.test, ast.Compare) and isinstance(s.test.ops[0], ast.In)
-                             and popped and is_name(s.test.left, popped) and any(isinstance(b, ast.Continue) for b in s.body)]
-            vis = norm(visited_guard[0].test.comparators[0]) if visited_guard else None
-            marks = [c for c in ast.walk(w) if isinstance(c, ast.Call) and isinstance(c.func, ast.Attribute) and c.func.attr == "add" and vis and norm(c.func.value) == vis
-                     and c.args and is_name(c.args[0], popped)]
+            # visited idiom, in either spelling (`if x in visited: continue` first, or everything under
+            # `if x not in visited:`): the push runs only when the popped element is not in V, and V.add(x) runs
+            # whenever that is the case
+            def not_visited_sets(conds):
+                return {norm(t.comparators[0]) for t, pol in conds if isinstance(t, ast.Compare) and len(t.ops) == 1 and isinstance(t.ops[0], ast.In)
+                        and popped and is_name(t.left, popped) and not pol}
             for pc in pushes:
                 st = stmt_of(f.module, pc)
-                by_visited = bool(visited_guard) and bool(marks) and visited_guard[0].lineno < st.lineno and not E.path_condition(f.module, marks[0], w)
                 conds = E.path_condition(f.module, st, w)
+                by_visited = False
+                for vis in not_visited_sets(conds):
+                    for c in ast.walk(w):
+                        if isinstance(c, ast.Call) and isinstance(c.func, ast.Attribute) and c.func.attr == "add" and norm(c.func.value) == vis \
+                                and c.args and is_name(c.args[0], popped):
+                            mconds = E.path_condition(f.module, stmt_of(f.module, c), w)
+                            if all(isinstance(t, ast.Compare) and isinstance(t.ops[0], ast.In) and norm(t.comparators[0]) == vis
+                                   and is_name(t.left, popped) and not pol for t, pol in mconds):
+                                by_visited = True
                 by_counter = any(isinstance(t, ast.Compare) and isinstance(t.ops[0], ast.Eq) and isinstance(t.comparators[0], ast.Constant) and t.comparators[0].value == 0 and pol
                                  and isinstance(t.left, ast.Subscript) for t, pol in conds)
                 if by_counter:
